@@ -99,6 +99,14 @@ Theorem tree_rem_fix_inorder : forall (K V : Type) (p : path K V) (t r : tree K 
 Proof. exact rem_fix_inorder. Qed.
 Print Assumptions tree_rem_fix_inorder.
 
+(* Tree_Rem_Fix(node) runs while the node is still in the tree and the child is spliced in afterwards; the model puts the
+   child into the focus first.  Justification: the repair only rebuilds the context — its result is the focus plugged into
+   a path that does not depend on the focus (or it crashes for every focus) *)
+Theorem tree_rem_fix_opaque : forall (K V : Type) (p : path K V),
+  (exists q, forall t, rem_fix K V t p = Ok (plug K V t q)) \/ (forall t, rem_fix K V t p = Crash).
+Proof. exact rem_fix_opaque. Qed.
+Print Assumptions tree_rem_fix_opaque.
+
 (* the double-black repair on an opaque focus of black height n in a context expecting n+1 never takes a
    Crash branch and yields a tree with equal black heights whose root is black (unless it is the focus itself) *)
 Theorem tree_rem_fix_valid : forall (K V : Type) (p : path K V) (t : tree K V) (n : nat),
